@@ -1,10 +1,18 @@
 (* Properties/C10.v — massive mode is observationally the simple mode up to the order of roots.
    Partial: (1) concurrent layer, all schedules of the LTS: the text written under the
    spreader's mutex is a sequence of complete, contiguous per-root blocks, each root at most
-   once; (2) the instances come from the generated inventory.  The sequential layer (the
-   splitter's blocks are the root blocks; the shared parser is schedule-insensitive on uniform
-   heading-free documents) and the known findings K1-K3 are discussed in DESIGN.md. *)
+   once; (2) the instances come from the generated inventory; (3) sequential layer
+   (Conc/Splitter.v, tied to split and rootGeneratorPipeline by the msplit/mgen correspondence):
+   the splitter's blocks concatenate to the input, and on every heading-free uniform spelling
+   of a forest the roots the generate workers produce are the forest's tries whatever the
+   interleaving of their calls to the one shared parser.  The hypotheses `sp_heading = false`
+   and the single unit of `spells` are exactly what the known findings K1 and K2 violate;
+   K1-K3 are discussed in DESIGN.md.  Not proved: the composition of (1) and (3) through the
+   grow stage into one statement about the bytes written. *)
 From Coq Require Import List Arith.
+From Coq Require Import Permutation.
+From GT Require Import Base.GoStr Md.Parser Tree.Tree Spec.Spec Spec.Spelling Conc.Splitter Proofs.SpelledTop
+  Proofs.SplitSchedule Proofs.MassiveFront.
 From GT Require Import Conc.Pipeline Conc.Instance Conc.InstanceCheck Proofs.PipeBlocks Proofs.PipeNoLeak.
 Import ListNotations.
 
@@ -39,6 +47,37 @@ Theorem C10_items_unique : forall p s, reach p s -> NoDup (p_items p) ->
   exists done, NoDup (st_pending s ++ held s ++ done) /\ incl (st_pending s ++ held s ++ done) (p_items p).
 Proof. exact items_unique. Qed.
 Print Assumptions C10_items_unique.
+
+(* the splitter loses, adds and reorders nothing: its blocks concatenate to the rows *)
+Theorem C10_split_concat : forall rows, concat (split_rows rows) = rows.
+Proof. exact split_concat. Qed.
+Print Assumptions C10_split_concat.
+
+(* blocks that each spell their own items in one common unit: the parse results every worker
+   sees for its block do not depend on how the workers' calls to the shared parser interleave *)
+Theorem C10_schedule_independent : forall u bs its,
+  Forall2 (block_spelled u) bs its ->
+  forall sched, interleave bs sched ->
+  results_by_block (List.length bs) (run_sched p0 sched)
+  = results_by_block (List.length bs) (run_sched p0 (seq_sched bs)).
+Proof. exact results_schedule_independent. Qed.
+Print Assumptions C10_schedule_independent.
+
+(* down to the bytes: on any heading-free spelling of a forest the splitter sends split_rows of
+   the rows, every worker re-scanning its block gets its rows back, and under EVERY interleaving
+   the roots are the forest's tries (in block order; as a multiset in any completion order),
+   i.e. what simple mode produces for the same bytes (C01_text_rule) *)
+Theorem C10_front_end : forall sp f,
+  spells sp f -> sp_heading sp = false ->
+  let rows := map fst (sp_rows sp) in
+  split_doc (bytes_of sp) = (map block_bytes (split_rows rows), true) /\
+  Forall (fun b => scan_lines (block_bytes b) = (b, ScanEOF)) (split_rows rows) /\
+  forall sched, interleave (split_rows rows) sched ->
+    roots_of (results_by_block (List.length (split_rows rows)) (run_sched p0 sched)) = map trie_of f /\
+    forall order, Permutation order (seq 0 (List.length (split_rows rows))) ->
+      Permutation (roots_of (map (fun j => block_result j (run_sched p0 sched)) order)) (map trie_of f).
+Proof. exact massive_front_end. Qed.
+Print Assumptions C10_front_end.
 
 Example C10_nonvacuous :
   match md_params SinkText false [0; 1; 2] false false (fun _ => false) (fun _ => false) (fun _ => false) (fun i => S i) with
